@@ -18,20 +18,25 @@ def jobs(tier):
             continue
         scales = [0, -2, 2] if tier == "quick" else [0, -2, -1, 1, 2]
         for tn in (TN[j["model"]][:1] if tier == "quick" else TN[j["model"]]):
-            out.append(dict(j, tn=tn, scales=scales))
+            # two natural unit systems for the same model: temperatures of order 100 (GeV-like) and of order 1
+            # (the factor 1e-2 then takes Tn below 0.01, where un-rescaled absolute thresholds bite)
+            for base in (1.0, 0.004):
+                if base != 1.0 and not (tn == TN[j["model"]][0] and j["setting"] == "default"):
+                    continue
+                out.append(dict(j, tn=tn, scales=scales, base=base))
     return res, out
 
 
 def run(chk, tier, seed):
     res, js = jobs(tier)
     chk.add_model(res, label="job generator: (model, setting) x unit factors; group facts for C08")
-    reps = [dict(model=j["model"], setting=j["setting"], tn=j["tn"], u=10.0 ** k) for j in js for k in j["scales"]]
+    reps = [dict(model=j["model"], setting=j["setting"], tn=j["tn"], u=j.get("base", 1.0) * 10.0 ** k) for j in js for k in j["scales"]]
     with Pool(min(16, len(reps))) as pool:
         evs = pool.map(covar.run_one, reps, chunksize=1)
     traces, i = [], 0
     for j in js:
         n = len(j["scales"])
-        traces.append({"id": "units_{model}_{setting}_tn{tn}".format(**j), "ev": evs[i:i + n], "cell": dict(model=j["model"], setting=j["setting"], tn=j["tn"], scales=j["scales"])})
+        traces.append({"id": "units_{model}_{setting}_tn{tn}_base{base}".format(**j), "ev": evs[i:i + n], "cell": dict(model=j["model"], setting=j["setting"], tn=j["tn"], scales=j["scales"])})
         i += n
     for tr in traces:
         for ev in tr["ev"]:
@@ -41,7 +46,7 @@ def run(chk, tier, seed):
     chk.add_validation(vr, traces)
     chk.extra.update(pipeline_runs=len(reps), checker_cmd="tlc Covariance.tla ; tlc TraceCovariance.tla (PROP=C07)")
     chk.rule = ("runs = polynomial model (one-/two-field, phases existing over the whole traced range) x nucleation temperature x settings (default; "
-                "errTol 1e-4 + phaseTracerTol 1e-8) x unit factor in {1e-2,1e-1,1,10,1e2} (quick: 1, 1e-2, 1e2): full pipeline setup, LTE speed, solveWall in LTE mode")
+                "errTol 1e-4 + phaseTracerTol 1e-8) x natural unit system (temperatures of order 100 / of order 1) x unit factor in {1e-2,1e-1,1,10,1e2} (quick: 1, 1e-2, 1e2): full pipeline setup, LTE speed, solveWall in LTE mode")
     chk.assumptions += ["every dimensionful input (field values, temperatures, mass parameters, variation scales) multiplied by the factor; couplings dimensionless"]
 
 
@@ -49,7 +54,7 @@ def replay(chk, path):
     with open(path) as f:
         tr = json.load(f)
     c = tr["cell"]
-    evs = [covar.run_one(dict(model=c["model"], setting=c["setting"], tn=c["tn"], u=10.0 ** k)) for k in c["scales"]]
+    evs = [covar.run_one(dict(model=c["model"], setting=c["setting"], tn=c["tn"], u=c.get("base", 1.0) * 10.0 ** k)) for k in c["scales"]]
     for ev in evs:
         print(json.dumps(ev)[:600])
     new = dict(tr, ev=evs)
